@@ -27,7 +27,7 @@ ASSUMPTIONS = [
 ]
 TIMEOUT = {"quick": 300, "thorough": 1800}
 REQUIRED = {"post:__call__": 200, "post:build_posterior": 100, "cases:hetero_d>=2": 5, "cases:y_cov_list": 10,
-            "cases:cp": 20, "permutation_reruns": 50, "judged": 150}
+            "cases:cp": 20, "permutation_reruns": 50, "judged": 150, "hyperparameter_updates": 100}
 
 
 def jobs(tier, seed):
@@ -231,6 +231,44 @@ def run_job(job, rec):
         rec.check(bool(np.abs(cov_j - cov_j.T).max() <= tol_cov), "posterior-asymmetric", "posterior covariance not symmetric", rec.context)
         lam = np.linalg.eigvalsh(0.5 * (cov_j + cov_j.T))
         rec.check(lam.min() >= -tol_cov * len(q), "posterior-not-psd", lambda: f"posterior covariance eigenvalue {lam.min():.3e}", rec.context)
+
+        # ---- history: the same regressor object after hyper-parameter updates (fresh array, then the same
+        #      array object modified in place): predictions must be the closed form for the *current* values
+        if rng.random() < 0.6:
+            theta_all = np.concatenate([p["theta_m"], theta_c]).astype(float)
+            for upd in ("fresh", "in_place", "in_place"):
+                k0 = int(rng.integers(theta_all.size))
+                if upd == "fresh":
+                    theta_all = theta_all.copy()
+                from vmon.props.c10 import cp_positions as _cpp
+                cp_idx = {len(p["theta_m"]) + a for a, _ in _cpp(p["spec"], n, d, x)} | {len(p["theta_m"]) + a + 1 for a, _ in _cpp(p["spec"], n, d, x)}
+                if k0 in cp_idx:
+                    continue
+                theta_all[k0] += float(rng.uniform(0.2, 0.6)) * (1 if k0 >= len(p["theta_m"]) else p["y_scale"])
+                tm2, tc2 = theta_all[: len(p["theta_m"])].copy(), theta_all[len(p["theta_m"]):].copy()
+                r = guarded(gp.set_hyperparameters, theta_all)
+                rec.count("hyperparameter_updates")
+                if isinstance(r, Raised):
+                    if isinstance(r.exc, np.linalg.LinAlgError):
+                        break
+                    rec.violation("raised", f"set_hyperparameters raised {r!r}", rec.context)
+                    break
+                K2 = R.data_cov(p["spec"], x, tc2) + p["S"]
+                c2 = np.linalg.cond(K2)
+                if not np.isfinite(c2) or c2 > 1e10:
+                    break
+                mu2, cov2, _, Kqq2 = R.posterior(p["spec"], p["mean"], x, y, p["S"], tm2, tc2, q, jitter=jitter * np.exp(2 * (tc2[0] - theta_c[0])) if p["spec"][0] in ("SE", "RQ") else jitter)
+                o2 = guarded(gp, q)
+                f2 = 400 * eps * max(c2, 1.0)
+                sol2 = np.linalg.solve(K2, y - R.mean(p["mean"], x, tm2, x))
+                t_mu = f2 * (np.abs(R.kernel(p["spec"], q, x, tc2, n)) @ np.abs(sol2) + np.abs(R.mean(p["mean"], q, tm2, x)) + np.abs(y).max()) + 1e-9 * np.abs(mu2).max()
+                t_cv = f2 * max(np.abs(np.diag(Kqq2)).max(), 1e-300) * 4 + 2e-9 * np.abs(np.diag(Kqq2)).max()
+                ok = (not isinstance(o2, Raised)) and bool(np.all(np.abs(o2[0] - mu2) <= t_mu)) and bool(np.all(np.abs(o2[1] ** 2 - np.diag(cov2)) <= t_cv))
+                rec.check(ok, "stale-after-hyperparameter-update",
+                          lambda: f"{desc}: after set_hyperparameters ({upd} array, entry {k0} changed) predictions are not the closed form for the new values: "
+                                  f"mean error {np.abs(o2[0] - mu2).max() if not isinstance(o2, Raised) else o2}", rec.context)
+                if not ok:
+                    break
 
         # ---- metamorphic: order of the training points
         perm = rng.permutation(n)
